@@ -13,12 +13,14 @@ PKGS=$(grep -E '^\+\+\+ b/' $SRC/patch.diff | sed 's#+++ b/##' | xargs -n1 dirna
 # place demo tests next to the package named in demo_cmd
 DPKG=$(echo "$DEMO" | grep -oE '\./[a-z0-9/_]+/' | head -1)
 for t in $SRC/*_test.go; do [ -f "$t" ] && cp "$t" $W/$DPKG; done
+for t in $SRC/*/*_test.go; do [ -f "$t" ] && cp "$t" $W/$(basename $(dirname $t))/; done
 r_pass0=FAIL; r_build=FAIL; r_fail1=FAIL; r_tests=FAIL
 (cd $W && eval "$DEMO" >>$LOG 2>&1) && r_pass0=ok
 (cd $W && git apply $SRC/patch.diff >>$LOG 2>&1 && go build ./... >>$LOG 2>&1) && r_build=ok
 if [ $r_build = ok ]; then
   (cd $W && eval "$DEMO" >>$LOG 2>&1) || r_fail1=ok
   for t in $SRC/*_test.go; do rm -f $W/$DPKG/$(basename $t); done
+  for t in $SRC/*/*_test.go; do [ -f "$t" ] && rm -f $W/$(basename $(dirname $t))/$(basename $t); done
   (cd $W && go test $PKGS -count=1 -timeout 25m >>$LOG 2>&1) && r_tests=ok
 fi
 CAUGHT=$(/verif/scripts/seedcheck.sh $SRC/patch.diff all 2>/dev/null | grep -E "^C[0-9]+ violations=" | awk '{print $1}' | tr '\n' ' ')
@@ -26,6 +28,7 @@ git -C /repo worktree remove --force $W >/dev/null 2>&1
 echo "$ID $MN demo_passes_clean=$r_pass0 builds=$r_build demo_fails_patched=$r_fail1 existing_tests($PKGS)=$r_tests caught_by=[$CAUGHT]"
 if [ $r_pass0 = ok ] && [ $r_build = ok ] && [ $r_fail1 = ok ] && [ $r_tests = ok ]; then
   D=/verif/seeded/${ID}-${MN}; mkdir -p $D; cp $SRC/patch.diff $D/; for t in $SRC/*_test.go; do [ -f "$t" ] && cp "$t" $D/$(basename $t).txt; done
+  for t in $SRC/*/*_test.go; do [ -f "$t" ] && cp "$t" $D/$(basename $(dirname $t))_$(basename $t).txt; done
   python3 - "$SRC/meta.json" "$D/meta.json" "$CAUGHT" "$PKGS" "$DEMO" <<'PY'
 import json,sys
 m=json.load(open(sys.argv[1]))
